@@ -278,16 +278,43 @@ Fixpoint ths_separated (l : list spec_float) : bool :=
   | a :: (b :: _) as t => SFltb eps_roc (SFsub p32 e32 b a) && ths_separated t
   | _ => true
   end.
-(* the separation hypothesis of the AUC theorem: sorted scores are equal or more than eps apart *)
-Fixpoint well_separated (l : list (spec_float * bool)) : bool :=
-  match l with
-  | a :: (b :: _) as t =>
-      (SFeqb (fst a) (fst b) || SFltb eps_roc (SFabs (SFsub p32 e32 (fst b) (fst a)))) && well_separated t
-  | _ => true
-  end.
-
 Definition is_zero_sf (x : spec_float) : bool := match x with S754_zero _ => true | _ => false end.
 Definition is_one_sf (x : spec_float) : bool := sf_eqb x (one o32).
+
+(* --- the AUC oracle, in exact rational arithmetic and without a separation hypothesis ---
+   The scores are taken as the rationals they denote; the non-negative ones are sorted and grouped
+   as the loop groups them (Model.grouped_sc at Q: a score opens a new group when it exceeds the
+   group's first score by more than eps); the reported area must be the Mann-Whitney statistic of
+   the grouped scores (two scores of one group count as tied).  The loop takes its decisions in
+   binary32 (rounded difference); the oracle is evaluated only when every one of those decisions
+   agrees with the exact one, which [decisions_agree] checks along the sorted scores. *)
+Definition qscores (ps : list (spec_float * bool)) : list (Q * bool) := map (fun p => (SF2Qd (fst p), snd p)) ps.
+Definition eps_rocQ : Q := SF2Qd eps_roc.
+Fixpoint decisions_agree (a : option spec_float) (l : list (spec_float * bool)) : bool :=
+  match l with
+  | [] => true
+  | p :: t =>
+      let s := fst p in
+      match a with
+      | None => decisions_agree (Some s) t
+      | Some a0 =>
+          let pf := SFltb eps_roc (SFabs (SFsub p32 e32 s a0)) in
+          let pq := Qltb eps_rocQ (Qabs' (SF2Qd s - SF2Qd a0)) in
+          Bool.eqb pf pq && decisions_agree (Some (if pf then s else a0)) t
+      end
+  end.
+Definition auc_groups (c : roccase) : list (Q * bool) := grouped_sc oQ eps_rocQ (qscores (rc_input c)).
+Definition auc_checked (c : roccase) : bool :=
+  let ps := rc_input c in
+  let kept := filter (fun p : spec_float * bool => SFleb (S754_zero false) (fst p)) ps in
+  forallb (fun p : spec_float * bool => sf_finite (fst p)) ps &&
+  Nat.ltb 0 (npos (auc_groups c)) && Nat.ltb 0 (nneg (auc_groups c)) &&
+  decisions_agree None (sort_sc o32 kept).
+Definition auc_tol (c : roccase) : Q := Z.of_nat (length (rc_input c) + 8) # 16777216.
+Definition auc_expected (c : roccase) : Q :=
+  let G := auc_groups c in Qred (qn (mw2 oQ G) / (2 * (qn (npos G) * qn (nneg G)))).
+Definition auc_ok (c : roccase) : bool :=
+  negb (auc_checked c) || close32 (auc_tol c) (b32_of_bits (rc_auc c)) (Some (auc_expected c)).
 
 Definition oracle_roc (c : roccase) : N :=
   let ps := rc_input c in
@@ -305,11 +332,9 @@ Definition oracle_roc (c : roccase) : N :=
              end) 1024
        + flag (nondecreasing_pts curve) 2048
        + flag (Nat.eqb (length curve) (S (length ths)) && ths_separated ths
-               && forallb (fun t => existsb (fun p : spec_float * bool => sf_eqb (fst p) t) kept) ths) 4096
-       + flag (negb (well_separated (sort_sc o32 kept)) ||
-               close32 (Z.of_nat (n + 8) # 16777216) (b32_of_bits (rc_auc c))
-                       (Some (Qred (qn (mw2 o32 kept) / (2 * (qn np * qn nn)))))) 8192)%N
+               && forallb (fun t => existsb (fun p : spec_float * bool => sf_eqb (fst p) t) kept) ths) 4096)%N
     else 0%N in
+  let auc_bit := flag (auc_ok c) 8192 in
   let ll_bits :=
     if rc_oracle_ll c then
       match ps with
@@ -317,7 +342,7 @@ Definition oracle_roc (c : roccase) : N :=
       | _ => flag (rc_ll_ok c && in_encl (Z.of_nat (n + 8) # 16777216) (log_loss_encl ps) (SF2Q (b32_of_bits (rc_ll c)))) 16384
       end
     else 0%N in
-  (roc_bits + ll_bits)%N.
+  (roc_bits + auc_bit + ll_bits)%N.
 
 (** * Regression scores (f64) *)
 Record regcase := {
